@@ -409,7 +409,9 @@ func (x *Exec) withCtx(ctx context.Context, rec M, command bool) M {
 		rec["live"] = ctx.Err() == nil
 		x.ctxMu.Lock()
 		prev := x.lastCtx[conn]
-		if prev != nil && prev != ctx {
+		// a parser call always belongs to a new command (Parse or Query): whatever context the callback before it
+		// was given belongs to an earlier command - also when it is the very same context again
+		if prev != nil && (prev != ctx || rec["name"] == "parse") {
 			x.prevCtx[conn] = prev
 		}
 		x.lastCtx[conn] = ctx
